@@ -479,6 +479,17 @@ func (g *gen) buildMessage(p *msgPlan) {
 	if g.mode == Arbitrary && rapid.IntRange(0, 5).Draw(t, "objopt") == 0 {
 		d.Options = &descriptorpb.MessageOptions{}
 		proto.SetExtension(d.Options, ext_j5pb.E_Message, &ext_j5pb.MessageOptions{Type: &ext_j5pb.MessageOptions_Object{Object: &ext_j5pb.ObjectMessageOptions{}}})
+	} else if g.mode == Arbitrary && rapid.IntRange(0, 5).Draw(t, "objoptany") == 0 {
+		// any value of the message-level annotations (message kind, entity part)
+		d.Options = &descriptorpb.MessageOptions{}
+		for i, ext := range []protoreflect.ExtensionType{ext_j5pb.E_Message, ext_j5pb.E_Psm} {
+			if rapid.Bool().Draw(t, fmt.Sprintf("msgext%d", i)) {
+				m := ext.New().Message().New()
+				g.fillAny(m, 0, fmt.Sprintf("mx%d.", i))
+				proto.SetExtension(d.Options, ext, m.Interface())
+				g.cls("opt:generic:" + string(ext.TypeDescriptor().FullName()))
+			}
+		}
 	}
 	nf := rapid.IntRange(0, 8).Draw(t, "nfields")
 	if p.index == 0 {
